@@ -130,6 +130,10 @@ func (env *Env) rangeAssume(st *State, v Val) {
 		st.assumeOnce(fmt.Sprintf("(and (<= %s %s) (<= %s %s))", smtInt(lo), v.T, v.T, smtInt(hi)))
 		return
 	}
+	if _, isPtr := types.Unalias(t).Underlying().(*types.Pointer); isPtr && !env.c.bv {
+		env.c.allocFact(st, v.T)
+		return
+	}
 	s := env.sortOf(t)
 	if strings.HasPrefix(s, "Sl_") {
 		st.assumeOnce(fmt.Sprintf("(<= 0 (len_%s %s))", s, v.T))
@@ -644,18 +648,8 @@ func (env *Env) evalBinary(x *ast.BinaryExpr, st *State) Val {
 	case token.LSS, token.LEQ, token.GTR, token.GEQ:
 		op := map[token.Token]string{token.LSS: "<", token.LEQ: "<=", token.GTR: ">", token.GEQ: ">="}[x.Op]
 		if env.sortOf(ty) == "Str" {
-			c.decls.declFun("str_lt", []string{"Str", "Str"}, "Bool")
-			c.trust("string ordering is an uninterpreted strict total order")
-			switch x.Op {
-			case token.LSS:
-				return boolVal(app("str_lt", a.T, b.T))
-			case token.GTR:
-				return boolVal(app("str_lt", b.T, a.T))
-			case token.LEQ:
-				return boolVal(not(app("str_lt", b.T, a.T)))
-			default:
-				return boolVal(not(app("str_lt", a.T, b.T)))
-			}
+			c.bytesAxioms(env.sortOf(types.NewSlice(tByte)))
+			return boolVal(app(op, app("str_cmp", a.T, b.T), "0"))
 		}
 		if s := env.sortOf(ty); s != "Int" && s != "Real" {
 			// ordered type parameter: uninterpreted total order
@@ -865,6 +859,14 @@ func (env *Env) selectField(v Val, name string, st *State, pos token.Pos) Val {
 					}
 				}
 			}
+		}
+		if gt := env.ghostFieldType(vt, name); gt != nil && isPtr {
+			ssort := env.structSortOf(vt)
+			key := ssort + ".$" + name
+			h := env.heapTerm(st, key, env.sortOf(gt))
+			r := Val{T: app("select", h, v.T), Ty: gt}
+			env.rangeAssume(st, r)
+			return r
 		}
 		c.unsupported("%s: no field %s", c.e.pos(pos), name)
 		return Val{T: c.fresh("unk", "Int"), Ty: tInt}
@@ -1216,6 +1218,16 @@ func (env *Env) newObjectOf(cl *ast.CompositeLit, st *State, t types.Type) Val {
 		h := env.heapTerm(st, key, fs)
 		st.heap[key] = app("store", h, ref, app(fieldSel(ssort, f.Name()), sv.T))
 	}
+	// ghost fields of a new object start at their zero value
+	if ts := c.e.typeSpecForSort(ssort); ts != nil {
+		for _, g := range sortedKeys(ts.GhostFields) {
+			if gt := env.ghostFieldType(types.NewPointer(t), g); gt != nil {
+				key := ssort + ".$" + g
+				h := env.heapTerm(st, key, env.sortOf(gt))
+				st.heap[key] = app("store", h, ref, env.zero(gt).T)
+			}
+		}
+	}
 	return Val{T: ref, Ty: types.NewPointer(t)}
 }
 
@@ -1223,11 +1235,13 @@ func (env *Env) allocRef(st *State, t types.Type) string {
 	c := env.c
 	ref := c.fresh("new_"+mangle(env.sortOf(t)), "Int")
 	st.assume(fmt.Sprintf("(> %s 0)", ref))
-	// fresh: different from every reference known so far
-	for _, o := range c.knownRefs {
+	// fresh: outside the entry allocation set and different from every object allocated so far
+	c.decls.declConst("alloc0", "(Array Int Bool)")
+	st.assume(fmt.Sprintf("(not (select alloc0 %s))", ref))
+	for _, o := range c.freshList {
 		st.assume(fmt.Sprintf("(distinct %s %s)", ref, o))
 	}
-	c.knownRefs = append(c.knownRefs, ref)
+	c.freshList = append(c.freshList, ref)
 	c.freshRefs[ref] = true
 	return ref
 }
@@ -1273,4 +1287,49 @@ func (env *Env) mapDelete(m, k Val) Val {
 	has := app("select", app("mh_"+s, m.T), k.T)
 	card := ite(has, app("-", app("mc_"+s, m.T), "1"), app("mc_"+s, m.T))
 	return Val{T: app("mk_"+s, app("mv_"+s, m.T), app("store", app("mh_"+s, m.T), k.T, "false"), card), Ty: m.Ty}
+}
+
+// ghostFieldType resolves a ghost field declared with `//@ ghostfield name type` on the struct type.
+func (env *Env) ghostFieldType(t types.Type, name string) types.Type {
+	c := env.c
+	ssort := env.structSortOf(t)
+	ts := c.e.typeSpecForSort(ssort)
+	if ts == nil {
+		return nil
+	}
+	texpr, ok := ts.GhostFields[name]
+	if !ok {
+		return nil
+	}
+	key := ts.Key + "." + name
+	if gt, ok := c.e.ghostTypes[key]; ok {
+		return gt
+	}
+	ex, err := parseExprCached(texpr)
+	if err != nil {
+		c.unsupported("ghost field %s: bad type %q", key, texpr)
+		return nil
+	}
+	ge := &Env{c: c, pkg: &pkgRef{info: ts.Pkg.TypesInfo, types: ts.Pkg.Types, files: ts.Pkg.Syntax}, contract: true, bound: map[string]Val{}}
+	gt := ge.typeOfExpr(ex)
+	if gt == nil {
+		c.unsupported("ghost field %s: unresolved type %q", key, texpr)
+		return nil
+	}
+	c.e.ghostTypes[key] = gt
+	return gt
+}
+
+// allocFact: every reference read from a variable, field or element is nil, allocated at
+// entry, or one of the objects allocated since.
+func (c *Ctx) allocFact(st *State, ref string) {
+	if ref == "0" || c.freshRefs[ref] {
+		return
+	}
+	c.decls.declConst("alloc0", "(Array Int Bool)")
+	alts := []string{eq(ref, "0"), app("select", "alloc0", ref)}
+	for _, f := range c.freshList {
+		alts = append(alts, eq(ref, f))
+	}
+	st.assumeOnce(or(alts...))
 }
